@@ -41,7 +41,9 @@ def lin(e):
             terms.update(old)
             for k, v in cur.items():
                 terms[k] = terms.get(k, 0) + sign * x.left.value * v
-        elif isinstance(x, ast.Constant) and isinstance(x.value, int):
+        elif isinstance(x, ast.UnaryOp) and isinstance(x.op, ast.USub):
+            add(x.operand, -sign)
+        elif isinstance(x, ast.Constant) and isinstance(x.value, int) and not isinstance(x.value, bool):
             terms[""] = terms.get("", 0) + sign * x.value
         else:
             k = subscript_key(x, "state") or norm(x)
